@@ -670,7 +670,8 @@ package larking
 //@   assert atcall `w.Header().Set("Content-Encoding"` #1 [announced-encoding-is-negotiated-and-applied C04] arg2 == acceptEncoding && cz#2 != nil
 //@   assert atcall `w.Header().Set("Content-Encoding"` #2 [identity-only-without-a-pending-compressor C04 C05] zc == nil
 //@   witness verifWitnessGzipError for identity-only-without-a-pending-compressor
-//@   assert atcall `m.encError(w, r, herr)` [error-document-goes-through-the-announced-encoding C04 C05] zc == nil
+//@   assert atcall `m.encError(` [error-document-goes-through-the-announced-encoding C04 C05] zc == nil
+//@        || (typeof(arg1) == typeid("compressedWriter") && same(unbox(arg1, "compressedWriter").z, resp))
 //@   witness verifWitnessGzipMidStreamError for error-document-goes-through
 //@   witness verifWitnessPathAuthoritative
 //@   witness verifWitnessStatsEnd for end-after-begin
